@@ -13,6 +13,12 @@ namespace PV.Model
 def goAs4 (a : Bytes) : Outcome Bytes :=
   if a.length == 4 then .ok a else if Netip.is4in6 a then .ok (a.drop 12) else .panic
 
+/-- `binary.BigEndian.PutUint16(p[a:], v)`: the window is `p[a:len(p)]` (panics unless `a ≤ len`), and
+    PutUint16 itself panics unless the window holds two bytes (`_ = b[1]`) -/
+def Sl.put16From (m : Mem) (s : Sl) (a : Nat) (v : Nat) : Outcome Mem := do
+  let d ← s.from_ m a
+  if d.len < 2 then .panic else pure (poke m d.off [hi8 (v % 65536), lo8 (v % 65536)])
+
 /-- placeholder for a branch the single-array memory model cannot express (the encoder allocates a fresh
     buffer with `make`); every tie theorem excludes the branch by an explicit hypothesis, and the condition is
     listed in `Gen.Enc.encoderAssumptions` -/
